@@ -151,13 +151,17 @@ def findlabels_pre_310(code, opc):
 NO_LINE_NUMBER = -128
 
 
-def findlinestarts(code, dup_lines=False, unsigned_deltas=False):
+def findlinestarts(code, dup_lines=False, unsigned_deltas=False, stop_at_end=True):
     """Find the offsets in a byte code which are start of lines in the source.
 
     Generate pairs (offset, lineno) as described in Python/compile.c.
 
     Before Python 3.6 the line increments of co_lnotab are unsigned bytes;
     set `unsigned_deltas` for those versions.
+
+    Python 3.8 and 3.9 ignore co_lnotab entries past the end of the bytecode
+    (lines that were optimized away); earlier versions report them. Clear
+    `stop_at_end` for those.
     """
 
     if hasattr(code, "co_lines"):
@@ -201,7 +205,7 @@ def findlinestarts(code, dup_lines=False, unsigned_deltas=False):
                         lastlineno = lineno
                         pass
                     offset += byte_incr
-                    if offset >= bytecode_len:
+                    if stop_at_end and offset >= bytecode_len:
                         # The rest of the ``lnotab byte offsets are past the end of
                         # the bytecode; any line numbers for these have been removed.
                         return
@@ -218,7 +222,15 @@ def findlinestarts(code, dup_lines=False, unsigned_deltas=False):
 
 def findlinestarts_unsigned(code, dup_lines=False):
     """findlinestarts() for bytecode before 3.6, where line increments are unsigned."""
-    return findlinestarts(code, dup_lines=dup_lines, unsigned_deltas=True)
+    return findlinestarts(
+        code, dup_lines=dup_lines, unsigned_deltas=True, stop_at_end=False
+    )
+
+
+def findlinestarts_pre38(code, dup_lines=False):
+    """findlinestarts() for 3.6 and 3.7 bytecode: signed line increments, and
+    entries past the end of the bytecode are reported."""
+    return findlinestarts(code, dup_lines=dup_lines, stop_at_end=False)
 
 
 def instruction_size(op, opc):
